@@ -74,8 +74,10 @@ def compiled_fold_rule(repo: Repo, rep: Report, rid: str, tier: str) -> bool:
         raise AnalysisError(f"{rid}: only {fold['compiled']} of {fold['generated']} structures were compiled in the fold (the harness no longer matches compiler.compile)")
     bad = [b for b in fold["bad"] if (pred is None or pred(b[0]))]
     if prop == "C09":
+        # values: only what differs for a stream that does not start at 0; where the reader leaves the stream and where it fetches nested types / units
+        # is position discipline whatever the start
         at0 = {(tuple(b[0]), b[1]) for b in fold["bad"] if b[3] == "stream at 0"}
-        bad = [b for b in bad if b[3] != "stream at 0" and (tuple(b[0]), b[1]) not in at0]
+        bad = [b for b in bad if b[4].startswith(("[end]", "[fetch]")) or (b[3] != "stream at 0" and (tuple(b[0]), b[1]) not in at0)]
     by_cat: dict[str, list] = {}
     for b in bad:
         cat = b[4][1:b[4].index("]")] if b[4].startswith("[") else "values"
